@@ -81,4 +81,105 @@ example : trySort (fun i (a b : Nat) => if i = 1 then .error "E" else .ok (decid
 example : trySort (fun i (a b : Nat) => if i = 7 then (.error "E" : Except String Bool) else .ok (decide (a < b))) [3, 1, 2] 0
     = .ok [1, 2, 3] 3 := by decide
 
+/-! ### ordered, stable — equal to the reference stable sort
+
+`StrictWeak r`: `r` ("strictly less") is irreflexive, transitive and negatively transitive — total
+orders, and preorders with ties (compare by a key), are instances.  `Pure lt r`: the comparator never
+fails and decides `r`.  The reference stable sort is insertion sort `isort r` (an element goes before
+the first one that is not strictly smaller, so tied elements keep their input order). -/
+
+/-- **`try_sort` computes the reference stable sort** (both paths: insertion sort for `len ≤ 20`, and
+natural runs + `MIN_RUN` extension + run stack + two-directional merges above) -/
+theorem sort_eq_reference {r : α → α → Bool} (hs : StrictWeak r) (lt : Cmp ε α) (hp : Pure lt r)
+    (xs : List α) (n : Nat) : ∃ n', trySort lt xs n = .ok (isort r xs) n' := by
+  obtain ⟨ys, n', h⟩ := trySort_pure_ok hp xs n
+  exact ⟨n', by rw [h, trySort_spec hs hp h]⟩
+
+/-- the result is ordered w.r.t. the comparator: no element is strictly smaller than an earlier one -/
+theorem sort_sorted {r : α → α → Bool} (hs : StrictWeak r) (lt : Cmp ε α) (hp : Pure lt r)
+    (xs : List α) (n : Nat) :
+    ∃ ys n', trySort lt xs n = .ok ys n' ∧ ys.Pairwise (fun a b => r b a = false) ∧ ys.Perm xs := by
+  obtain ⟨n', h⟩ := sort_eq_reference hs lt hp xs n
+  exact ⟨_, n', h, (stableSorted_isort hs xs).1, sort_perm lt xs _ n n' h⟩
+
+/-- stability: for every element `c`, the elements tied with `c` appear in the result in exactly the
+order they had in the input -/
+theorem sort_stable {r : α → α → Bool} (hs : StrictWeak r) (lt : Cmp ε α) (hp : Pure lt r)
+    (xs : List α) (n : Nat) :
+    ∃ ys n', trySort lt xs n = .ok ys n' ∧
+      ∀ c, ys.filter (fun x => !r c x && !r x c) = xs.filter (fun x => !r c x && !r x c) := by
+  obtain ⟨n', h⟩ := sort_eq_reference hs lt hp xs n
+  exact ⟨_, n', h, fun c => (stableSorted_isort hs xs).2 c⟩
+
+/-- an ordered rearrangement that keeps tied elements in input order is unique, so the two theorems
+above pin the result down completely -/
+theorem sorted_stable_unique {r : α → α → Bool} (hs : StrictWeak r) (xs ys : List α)
+    (h1 : ys.Pairwise (fun a b => r b a = false))
+    (h2 : ∀ c, ys.filter (fun x => !r c x && !r x c) = xs.filter (fun x => !r c x && !r x c)) :
+    ys = isort r xs :=
+  eq_isort_of_stableSorted hs ⟨h1, h2⟩
+
+/-- the hypotheses are satisfiable: comparing naturals by `x / 10` is a strict weak order with ties -/
+example : StrictWeak (fun a b : Nat => decide (a / 10 < b / 10)) :=
+  ⟨by simp, by intro a b c; simp; omega, by intro a b c; simp; omega⟩
+
+/-- `XSequence::sorted` (sequence.rs:304-357: pre-check of adjacent pairs with `cmp > 0`, then `try_sort`
+with `is_less = cmp < 0`): for a three-way comparison `c3` whose "negative" part is a strict weak order
+and which is antisymmetric in sign, the answer is the stable sort — `none` meaning "the input itself" -/
+theorem seqSorted_spec {c3 : α → α → Int} (cmp : Cmp3 ε α) (hp : ∀ i a b, cmp i a b = .ok (c3 a b))
+    (hs : StrictWeak (fun a b => decide (c3 a b < 0))) (hanti : ∀ a b, c3 a b > 0 ↔ c3 b a < 0)
+    (xs : List α) :
+    ∃ n', seqSorted cmp xs = .ok none n' ∧ xs = isort (fun a b => decide (c3 a b < 0)) xs ∨
+          seqSorted cmp xs = .ok (some (isort (fun a b => decide (c3 a b < 0)) xs)) n' := by
+  have hpl : Pure (ltOf cmp) (fun a b => decide (c3 a b < 0)) := by
+    intro i a b; simp [ltOf, hp]
+  unfold seqSorted
+  cases hpre : isSortedPre cmp xs 0 with
+  | ok b m =>
+    cases b with
+    | true =>
+      refine ⟨m, Or.inl ⟨by simp [Res.failCtx, Res.bind], ?_⟩⟩
+      have hch := isSortedPre_true_spec hp hpre
+      have hsorted : Sorted (fun a b => decide (c3 a b < 0)) xs := by
+        apply sorted_of_chain hs
+        refine hch.imp ?_
+        intro a b hab
+        simpa [← hanti] using hab
+      exact eq_isort_of_stableSorted hs ⟨hsorted, fun _ => rfl⟩
+    | false =>
+      obtain ⟨n', h⟩ := sort_eq_reference hs (ltOf cmp) hpl xs m
+      exact ⟨n', Or.inr (by simp [Res.failCtx, Res.bind, h, Res.map])⟩
+  | fail e b m =>
+    exfalso
+    have : ∀ (l : List α) (n : Nat) e b m, isSortedPre cmp l n ≠ .fail e b m := by
+      intro l
+      induction l with
+      | nil => intro n e b m; simp [isSortedPre]
+      | cons a t ih =>
+        intro n e b m
+        cases t with
+        | nil => simp [isSortedPre]
+        | cons c t =>
+          simp only [isSortedPre, hp n a c]
+          split
+          · simp
+          · exact ih (n + 1) e b m
+    exact this _ _ _ _ _ hpre
+  | panic =>
+    exfalso
+    have : ∀ (l : List α) (n : Nat), isSortedPre cmp l n ≠ .panic := by
+      intro l
+      induction l with
+      | nil => intro n; simp [isSortedPre]
+      | cons a t ih =>
+        intro n
+        cases t with
+        | nil => simp [isSortedPre]
+        | cons c t =>
+          simp only [isSortedPre, hp n a c]
+          split
+          · simp
+          · exact ih (n + 1)
+    exact this _ _ hpre
+
 end XrayModel.C19
